@@ -246,8 +246,12 @@ func (rb *replayBuilder) runReplay(rf *replayFile, path string) replayOutcome {
 		return replayOutcome{Note: err.Error()}
 	}
 	repeats := 1
+	timeout := "60s"
 	switch rf.Kind {
-	case "race", "crash", "deadlock":
+	case "deadlock", "bound":
+		repeats = 3
+		timeout = "20s"
+	case "race", "crash":
 		repeats = 40
 	default:
 		if strings.Contains(rf.Detail, "maporder") || mapOrderDependent(rf) {
@@ -256,7 +260,7 @@ func (rb *replayBuilder) runReplay(rf *replayFile, path string) replayOutcome {
 	}
 	var last string
 	for r := 1; r <= repeats; r++ {
-		cmd := exec.Command(bin, "-test.run", "^TestVerifReplay$", "-test.count=1", "-test.timeout=60s")
+		cmd := exec.Command(bin, "-test.run", "^TestVerifReplay$", "-test.count=1", "-test.timeout="+timeout)
 		cmd.Dir = pkgDir(rf.Package)
 		cmd.Env = append(goEnv(), "VERIF_REPLAY="+path, "VERIF_HARNESS="+rf.Harness, "GORACE=halt_on_error=0")
 		done := make(chan struct{})
@@ -515,7 +519,7 @@ func checkCmd(args []string) int {
 			broken = true
 		}
 		for _, n := range res.Inconclusive {
-			if strings.Contains(n, "assertion") {
+			if strings.Contains(n, "assertion") || strings.Contains(n, "partial concretisation") {
 				// an assertion the solvers could not decide is not a pass
 				fmt.Printf("INCONCLUSIVE harness=%s %s\n", h.fn, n)
 				broken = true
